@@ -125,6 +125,15 @@ func c10Scenario(p c10Params) Scenario {
 			if !r.done {
 				return &Viol{Sig: "C10/call-never-returned", Msg: fmt.Sprintf("call %s fid %d never returned (parked: %v)", r.spec.Kind, r.spec.Fid, x.Parked), Detail: detail}
 			}
+			if r.spec.Kind == "readn" {
+				// several requests behind one call: success means every one of them was answered
+				if r.err == nil {
+					if msg := r.verify("ok", p.Dotu, nil); msg != "" {
+						return &Viol{Sig: "C10/success-without-complete-reply/readn", Msg: fmt.Sprintf("File.Readn on fid %d returned success although the connection failed before all its replies had arrived: %s", r.spec.Fid, msg), Detail: detail}
+					}
+				}
+				continue
+			}
 			_, sent := tagOf[r.spec.Fid]
 			end, answered := peer.ReplyEnds[r.spec.Fid]
 			complete := sent && answered
@@ -235,6 +244,15 @@ func c10Scenarios(tier string) []Scenario {
 			}
 		}
 	}
+	// a helper that needs three replies (File.Readn over three iounits): cut after every byte of them
+	for off := 0; off <= 85; off++ {
+		if tier == "quick" && off%2 == 1 && off != 27 && off != 55 {
+			continue
+		}
+		out = append(out, c10Scenario(c10Params{Calls: []callSpec{{"readn", 10}}, Fault: "cut", At: off, Dotu: off%2 == 0, P: D - 1}))
+	}
+	out = append(out, c10Scenario(c10Params{Calls: []callSpec{{"readn", 10}, {"stat", 20}}, Fault: "unknowntag", At: 1, Late: true, P: D}),
+		c10Scenario(c10Params{Calls: []callSpec{{"readn", 10}}, Fault: "peerclose", P: D}))
 	for at := 0; at <= 1; at++ {
 		for _, one := range []bool{false, true} {
 			out = append(out, c10Scenario(c10Params{Calls: two, Fault: "wrongtype", At: at, OneWrite: one, Dotu: at == 1, Late: one, P: D + 1}))
@@ -272,7 +290,7 @@ func c10Scenarios(tier string) []Scenario {
 func init() {
 	register(&Property{ID: "C10", Level: "model_checking",
 		Technique: "fault enumeration crossed with stateless model checking of the real client under the controlled scheduler; hangs decided at quiescence",
-		Rule:      "0-3 (thorough 4) outstanding calls plus an optional caller entering Rpc during the failure; faults: server-to-client stream cut after every byte offset of the scripted reply stream, client writes failing at 10 offsets inside the first requests, garbage / undersize / oversize / unknown-tag frames and well-formed replies of the wrong kind placed before, between and after complete replies (own segment and same segment), Unmount from another goroutine, peer closing; the frame faults, Unmount and peer close also while the client's writer is blocked inside Write (peer stopped reading after the first request); every schedule with at most D deviations from the default scheduler (delay bounding; quick D=1-3 by fault kind, thorough D=2-4); afterwards one more call. distinct = distinct per-object operation orders",
+		Rule:      "0-3 (thorough 4) outstanding calls (raw calls, and File.Readn spanning three replies) plus an optional caller entering Rpc during the failure; faults: server-to-client stream cut after every byte offset of the scripted reply stream, client writes failing at 10 offsets inside the first requests, garbage / undersize / oversize / unknown-tag frames and well-formed replies of the wrong kind placed before, between and after complete replies (own segment and same segment), Unmount from another goroutine, peer closing; the frame faults, Unmount and peer close also while the client's writer is blocked inside Write (peer stopped reading after the first request); every schedule with at most D deviations from the default scheduler (delay bounding; quick D=1-3 by fault kind, thorough D=2-4); afterwards one more call. distinct = distinct per-object operation orders",
 		Assumptions: []string{"'within bounded time' is decided as: no reachable quiescent state in which a caller is blocked", "transport: a cut delivers exactly the bytes before the offset, then EOF"},
 		Scenarios:   c10Scenarios, QuickS: 180, ThoroughS: 1500})
 }
